@@ -49,8 +49,17 @@ def cases_for(ctx):
     cases.append({'behaviours': [E, 'hang', E], 'recycle': 3, 'consume': ['sigint', 2]})
     # a host process that ignores SIGCHLD (children are reaped by the kernel, their exit status is never delivered)
     cases.append({'behaviours': [E, E, 'hang', E, E], 'recycle': 3, 'consume': 'full', 'host': 'sigchld_ignored'})
+    # replayed code starts an asynchronous cassette of its own inside the worker and never closes it
+    cases.append({'behaviours': [E, 'start_async_cassette', E, E, E], 'recycle': 2, 'consume': 'full'})
+    # runs started through a long-lived studio object and abandoned; a parent descheduled right after forking a worker
+    cases.append({'behaviours': [E, D, E, E, E], 'recycle': 2, 'consume': ['raise', 2], 'via_studio': True})
+    cases.append({'behaviours': [E, D, E, E, E], 'recycle': 3, 'consume': ['drop', 1], 'via_studio': True})
+    cases.append({'behaviours': [E, E, E, E, E, E, E], 'recycle': 2, 'consume': 'full', 'slow_start': 0.4})
     if ctx.quick:
         return cases
+    cases.append({'behaviours': [E, 'hang', E, E], 'recycle': 2, 'consume': 'full', 'via_studio': True})
+    cases.append({'behaviours': ['start_async_cassette', E, E], 'recycle': 5, 'consume': ['close', 2]})
+    cases.append({'behaviours': [E, 'exit', E, E, E], 'recycle': 1, 'consume': 'full', 'slow_start': 0.3})
     cases.append({'behaviours': ['hang', E], 'recycle': 1, 'consume': ['sigint', 1]})
     cases.append({'behaviours': [E, E, E, 'hang'], 'recycle': 2, 'consume': ['sigint', 4]})
     cases.append({'behaviours': ['exit', E, 'late', E], 'recycle': 2, 'consume': 'full', 'host': 'sigchld_ignored'})
@@ -103,7 +112,7 @@ def judge(ctx, case, res, w):
             problems.append(('a %s worker was not reported as a failure (%s)' % (beh[i], r['status']), {}))
     # "the run continues with a fresh worker": healthy replays after a fault get their own verdict
     for i, r in enumerate(res['results']):
-        if beh[i] in ('equal', 'different') and not (i > 0 and beh[i - 1] == H.IDLE_DEATH):
+        if beh[i] in ('equal', 'different', 'start_async_cassette') and not (i > 0 and beh[i - 1] == H.IDLE_DEATH):
             if r['status'] != H.EXPECTED[beh[i]]:
                 problems.append(('healthy replay %d (%s) was reported as %s: the run did not continue with a working worker' % (i, beh[i], r['status']), {}))
     # recycle rate: no worker serves more replays than the configured rate
